@@ -32,7 +32,7 @@ run() { # name, expected exit status, expected substring of the output
 
 git -C /repo worktree add -q --detach "$W" HEAD || exit 2
 trap 'git -C /repo worktree remove --force "$W"; cd "$here" && ./check C08 >/dev/null 2>&1' EXIT
-want=${*:-add delete sort map-inplace cache-index cache-type collector presize loop-index base}
+want=${*:-add delete sort map-inplace cache-index cache-type collector presize loop-index base patches}
 for m in $want; do
 case $m in
 add)  # Array.Add: back to append(av.elements, ov)
@@ -101,6 +101,15 @@ base)  # the original tree
   git -C "$W" checkout -q verif-base
   run "tag verif-base (Array.Add/AddAll, Hash.Delete/DeleteAll defects)" 1 'VIOLATION property=C08 replay=[^ ]*$'
   git -C "$W" checkout -q --detach "$(git -C /repo rev-parse HEAD)" ;;
+patches)  # the stored patches selftest/C08/*.diff: `harmless-*` must stay green, every other one must be reported
+  for p in "$here"/selftest/C08/*.diff; do
+    n=$(basename "$p" .diff)
+    (cd "$W" && git apply "$p") || { echo "FAIL  $n: patch does not apply"; rc=1; continue; }
+    case $n in
+    harmless-*) run "harmless: $n" 0 '0 violation' ;;
+    *) run "mutant $n" 1 'VIOLATION property=C08 replay=[^ ]*$' ;;
+    esac
+  done ;;
 *) echo "unknown mutant $m"; rc=2 ;;
 esac
 done
